@@ -376,7 +376,9 @@ func scenarioC10(r *Run) {
 				sample = k
 			}
 		}
-		if left > 0 && !slowBess && !(faultMode == 1 && pl.trigger == "release" && !stop) {
+		// (a process stall longer than the 1 s join timeout has the effect of a slow
+		// datapath: the plug-in gives up on the commands still outstanding, by design)
+		if left > 0 && !slowBess && r.Faults["agent-stall"] == 0 && !(faultMode == 1 && pl.trigger == "release" && !stop) {
 			how := pl.trigger
 			if stop {
 				how += "+stop"
